@@ -168,7 +168,6 @@ type UUIDs struct {
 	A [16]byte  `parquet:"a,uuid"`
 	B string    `parquet:"b,uuid"`
 	C uuid.UUID `parquet:"c"`
-	D *string   `parquet:"d,uuid"`
 	E string    `parquet:"e,optional,uuid"`
 	F []uuid.UUID
 	G *uuid.UUID
@@ -181,7 +180,6 @@ type Strings struct {
 	Bb []byte   `parquet:"bb,bytes"`
 	Eo string   `parquet:"eo,optional,enum"`
 	So []byte   `parquet:"so,optional,string"`
-	Pe *string  `parquet:"pe,enum"`
 	Le []string `parquet:"le,list" parquet-element:",enum"`
 	Ls [][]byte `parquet:"ls,list" parquet-element:",string"`
 }
@@ -189,7 +187,6 @@ type Strings struct {
 type Intervals struct {
 	A [12]byte          `parquet:"a,interval"`
 	B parquet.Interval  `parquet:"b,interval"`
-	C *parquet.Interval `parquet:"c,interval"`
 	D parquet.Interval  `parquet:"d,optional,interval"`
 	E [12]byte          `parquet:"e,optional,interval"`
 }
@@ -290,7 +287,6 @@ type EncodingsOpt struct {
 	G float64   `parquet:"g,optional,split"`
 	K string    `parquet:"k,optional,dict"`
 	L *int64    `parquet:"l,dict"`
-	S []int64   `parquet:"s,delta"`
 	T []string  `parquet:"t,list,dict"`
 	U []float32 `parquet:"u,list" parquet-element:",split"`
 }
@@ -304,7 +300,7 @@ type Codecs struct {
 	F int32    `parquet:"f,uncompressed"`
 	G string   `parquet:"g,optional,dict,zstd"`
 	H []int32  `parquet:"h,list,snappy"`
-	I *string  `parquet:"i,gzip,delta"`
+	I *string  `parquet:"i,gzip"`
 	J []string `parquet:"j,snappy"`
 }
 
@@ -463,11 +459,11 @@ func catalogue2() []*cat {
 		mk[Decimals]("Decimals", nodeGen),
 		mk[DecimalsOpt]("DecimalsOpt", nodeGen),
 		mk[TimeInts]("TimeInts"),
-		mk[TimeTimes]("TimeTimes", noDeep, nodeGen),
-		mk[TimeDate]("TimeDate", noDeep, nodeGen),
-		mk[TimeDatePtr]("TimeDatePtr", noDeep, nodeGen),
-		mk[TimeTimesOpt]("TimeTimesOpt", noDeep, nodeGen),
-		mk[TimeNested]("TimeNested", noDeep, nodeGen),
+		mk[TimeTimes]("TimeTimes", noRecon, nodeGen),
+		mk[TimeDate]("TimeDate", noRecon, nodeGen),
+		mk[TimeDatePtr]("TimeDatePtr", noRecon, nodeGen),
+		mk[TimeTimesOpt]("TimeTimesOpt", noRecon, nodeGen),
+		mk[TimeNested]("TimeNested", noRecon, nodeGen),
 		mk[Durations]("Durations"),
 		mk[UUIDs]("UUIDs", nodeGen),
 		mk[Strings]("Strings"),
@@ -487,8 +483,8 @@ func catalogue2() []*cat {
 		mk[PtrSlices]("PtrSlices"),
 		mk[ByteArrays]("ByteArrays"),
 		mk[OptKinds]("OptKinds", noDeep),
-		mk[MapTags]("MapTags", noDeep, nodeGen),
-		mk[ElemTags]("ElemTags", noDeep),
+		mk[MapTags]("MapTags", noRecon, nodeGen),
+		mk[ElemTags]("ElemTags", noRecon),
 		mk[MapsMore]("MapsMore"),
 		mk[MapJSON]("MapJSON", noRecon),
 		mk[HugeLists]("HugeLists", hugeLists, few(6)),
